@@ -31,7 +31,7 @@ ASSUMPTIONS = ["content argument = Rust str::trim of the exact content (Unicode 
 
 HOSTS = [("py", "#"), ("go", "//"), ("toml", "#"), ("md", "<!--"), ("md", "<!--")]
 UNSAFE_IN_CODE = set("'\"(){}[]<>\\`\u00a0\u2003\u3000\u2028\u0085\x0b")
-FAILS = ["syntax", "runtime", "load", "lateload", "missing", "number", "boolean", "table", "false", "nilindex", "func", "cstack"]
+FAILS = ["syntax", "runtime", "load", "lateload", "missing", "number", "boolean", "table", "false", "nilindex", "func", "cstack", "badutf8"]
 PIECES = ["alpha", "beta gamma", "  lead", "trail  ", "é ü", "日本語", "\U0001F600", "it's", 'say "hi"', "a=b", "<tag>", "x > y", "1 + 2",
           "id: 42", "id: seven", "\u00a0nbsp\u00a0", "\u2003emsp", "\u3000ideographic", "trail\u3000", "\u2028ls", "nel\u0085", "\x0bvt", "tab\there", "100%", "{json: [1,2]}", "(paren)", "semi;colon", "start", "end",
           "zzz", "-- dash", "$var", "@at", "~tilde", "^caret", "|pipe|", "comma, separated", "q?", "e!"]
@@ -304,7 +304,8 @@ def judge(res, files, blocks, log_lines, desc, workers, aff, safe, fl):
             # exit 1 with an ordinary diagnostics report: the failure was turned into (or hidden behind) diagnostics
             names = [b.name for b in failing]
             quoted = [d for _f, d in dlf if any((":%s " % n) in d.get("message", "") for n in names)]
-            if quoted or not any(b.verdict == "string" and not b.failing and not getattr(b, "severity", None) for b in blocks):
+            only_badutf8 = all(b.kind == "badutf8" for b in failing)     # (a lossy diagnostic for an undecodable string is not silence)
+            if (quoted or not any(b.verdict == "string" and not b.failing and not getattr(b, "severity", None) for b in blocks)) and not (only_badutf8 and quoted):
                 return bad("C18/failing-script-reported-as-diagnostic/%s" % kinds,
                            "a failing script (%s) did not fail the run: exit %d comes from diagnostics only: %s" % (kinds, res.rc, str(quoted[:1])[:200]))
         return Case(HELD, key=key, nontrivial=nontrivial, sets=sets, counters={"runs_with_failing_script": 1, "blocks": len(blocks)},
